@@ -773,6 +773,7 @@ func runHistCase(o *Out, ci int, hc *histCase, nops int, distinct map[string]boo
 			var ok bool
 			var e error
 			rec.reset()
+			lk := linksBeforeExecute(sol, mv)
 			if doPanic(opDesc, func() { ok, e = mv.Execute(ctx) }) {
 				return
 			}
@@ -780,6 +781,7 @@ func runHistCase(o *Out, ci int, hc *histCase, nops int, distinct map[string]boo
 				violate("C16", "engine-error", "stale-Execute", e.Error())
 				return
 			}
+			lk.afterExecute(o, sol, ok)
 			collLine = execLine(mv, ok)
 			o.Count("stale-execute:" + fmt.Sprintf("ok=%v", ok))
 			if !ok {
@@ -843,6 +845,7 @@ func runHistCase(o *Out, ci int, hc *histCase, nops int, distinct map[string]boo
 			var ok bool
 			var e error
 			rec.reset()
+			lk := linksBeforeExecute(sol, mv)
 			if doPanic(opDesc+".Execute", func() { ok, e = mv.Execute(ctx) }) {
 				return
 			}
@@ -850,6 +853,7 @@ func runHistCase(o *Out, ci int, hc *histCase, nops int, distinct map[string]boo
 				violate("C16", "engine-error", "Execute", e.Error())
 				return
 			}
+			lk.afterExecute(o, sol, ok)
 			if exe {
 				collLine = execLine(mv, ok)
 			} else {
@@ -901,6 +905,7 @@ func runHistCase(o *Out, ci int, hc *histCase, nops int, distinct map[string]boo
 			var ok bool
 			var e error
 			rec.reset()
+			lk := linksBeforeExecute(sol, mv)
 			if doPanic(opDesc+".Execute", func() { ok, e = mv.Execute(ctx) }) {
 				return
 			}
@@ -908,6 +913,7 @@ func runHistCase(o *Out, ci int, hc *histCase, nops int, distinct map[string]boo
 				violate("C16", "engine-error", "Execute", e.Error())
 				return
 			}
+			lk.afterExecute(o, sol, ok)
 			if exe {
 				collLine = execLine(mv, ok)
 			} else {
@@ -949,8 +955,12 @@ func runHistCase(o *Out, ci int, hc *histCase, nops int, distinct map[string]boo
 			var ok bool
 			var e error
 			rec.reset()
+			lku := linksBeforeUnplan(sol, u)
 			if doPanic(opDesc, func() { ok, e = u.UnPlan() }) {
 				return
+			}
+			if e == nil {
+				lku.afterUnplan(o, sol, ok)
 			}
 			if _, nested := u.(nextroute.SolutionPlanUnitsUnit); nested {
 				collLine = fmt.Sprintf("unplanUnits %d %s", cu(u.ModelPlanUnit().Index()), bits("unplan"))
